@@ -50,7 +50,9 @@ def apply_odata_query(query: ClauseElement, odata_query: str) -> ClauseElement:
             str(required_join) not in existing_joins
             and str(required_join.key) not in existing_joins
         ):
-            query = query.join(required_join)
+            # Outer join: a parent without a related row must not be dropped, its
+            # navigated values are simply NULL (e.g. 'author/name eq null').
+            query = query.outerjoin(required_join)
 
     return query.filter(where_clause)
 
